@@ -13,6 +13,7 @@ package c13
 import (
 	"bytes"
 	"fmt"
+	"google.golang.org/protobuf/proto"
 	"math/big"
 	"sort"
 	"strings"
@@ -50,6 +51,11 @@ func (m *machine) stateNonce(u int) uint64 {
 func (m *machine) mkTx(u int, nonce uint64, variant int, cid []byte) *types.Tx {
 	s := &vnode.TxSpec{Kind: "transfer", From: u, Nonce: nonce, Type: types.TxType_TRANSFER, Recipient: vnode.KeyN((u + 1) % m.nusers).Addr,
 		Amount: big.NewInt(int64(1 + variant))}
+	if variant%2 == 1 {
+		// a much larger transaction (payload), so that a size-limited fetch meets transactions that do not fit
+		// in front of ones that would
+		s.Type, s.Payload = types.TxType_NORMAL, bytes.Repeat([]byte{byte('a' + variant)}, 1200)
+	}
 	tx := s.Build(cid)
 	m.made[string(tx.GetHash())] = tx
 	return tx
@@ -64,9 +70,44 @@ func (m *machine) relay() {
 				m.t.Fatalf("pool failed to process block %d: %v", x.Block.BlockNo(), err)
 			}
 		case *message.MemPoolPut:
-			m.mp.VerifAdmit(x.Tx) // an error only means the tx is not taken back
+			// a transaction of the abandoned branch that the chain service offers back: the pool must take it under
+			// exactly the conditions of any other submission (nonce above the account's nonce in the NEW state, nonce
+			// slot and hash free)
+			want, why := m.expectAccept(x.Tx)
+			err := m.mp.VerifAdmit(x.Tx)
+			if (err == nil) != want {
+				m.t.Fatalf("a transaction offered back after a reorganisation (nonce %d) was accepted=%v (%v), expected accepted=%v (%s)\nhistory: %s",
+					x.Tx.GetBody().GetNonce(), err == nil, err, want, why, strings.Join(m.hist, " | "))
+			}
 		}
 	}
+}
+
+// expectAccept: the admission rule of the pool for an otherwise valid transaction.
+func (m *machine) expectAccept(tx *types.Tx) (bool, string) {
+	d, err := m.N.DumpAt(m.N.CS.SDB().GetRoot())
+	if err != nil {
+		m.t.Fatalf("dump: %v", err)
+	}
+	acc := tx.GetBody().GetAccount()
+	st := d.Nonce(acc)
+	nonce := tx.GetBody().GetNonce()
+	accs, _, _, _ := m.mp.VerifView()
+	slotTaken, held := false, false
+	for _, a := range accs {
+		for i, n := range a.Nonces {
+			if bytes.Equal(a.Account, acc) && n == nonce {
+				slotTaken = true
+			}
+			if bytes.Equal(a.Hashes[i], tx.GetHash()) {
+				held = true
+			}
+		}
+	}
+	// a transaction signed for another fork version of the chain id (a reorganisation across a hardfork height) is
+	// not valid any more
+	sameChain := bytes.Equal(tx.GetBody().GetChainIdHash(), m.mp.VerifAcceptChainIDHash())
+	return sameChain && nonce > st && !slotTaken && !held, fmt.Sprintf("state nonce %d, nonce slot taken=%v, same transaction held=%v, signed for the accepted chain id=%v", st, slotTaken, held, sameChain)
 }
 
 func (m *machine) check(where string) {
@@ -155,6 +196,31 @@ func (m *machine) check(where string) {
 	for acc, ns := range expectReady {
 		if len(got[acc]) != len(ns) {
 			fail("account %x has a ready run %v that the producer is not offered (%v)", []byte(acc)[:4], ns, got[acc])
+		}
+	}
+	// a producer with a small block-size budget: whatever it is offered is, per account, still a gap-free run from
+	// state+1 (a prefix of the full offer), and fits the budget
+	lim := rapid.SampledFrom([]int{0, 150, 300, 700, 1500, 3000, 8000}).Draw(t, "fetchLimit")
+	part, err := m.mp.VerifGet(uint32(lim))
+	if err != nil {
+		fail("get(%d): %v", lim, err)
+	}
+	pgot := map[string][]uint64{}
+	psize := 0
+	for _, tx := range part {
+		acc := string(tx.GetBody().GetAccount())
+		pgot[acc] = append(pgot[acc], tx.GetBody().GetNonce())
+		psize += proto.Size(tx.GetTx())
+	}
+	if psize > lim {
+		fail("a fetch limited to %d bytes returned %d bytes", lim, psize)
+	}
+	for acc, ns := range pgot {
+		st := d.Nonce([]byte(acc))
+		for i, n := range ns {
+			if n != st+uint64(i)+1 {
+				fail("a fetch limited to %d bytes offers nonces %v for account %x whose state nonce is %d (full offer %v)", lim, ns, []byte(acc)[:4], st, got[acc])
+			}
 		}
 	}
 	unc := m.mp.VerifUnconfirmed()
